@@ -47,7 +47,8 @@ Init ==
     LET repl == {Obj(i, 1, f[i][1].c, f[i][1].h, FALSE) : i \in {j \in Ids : f[j][1].p}}
         rem  == {Obj(i, f[i][2].mi, f[i][2].c, f[i][2].h, FALSE) : i \in {j \in Ids : f[j][2].p}}
         lo   == {Obj(i, 1, 1, 1, TRUE) : i \in los}
-    IN /\ \A i \in los : i \notin {o.id : o \in repl \cup rem}      \* identifiers of local-only objects are fresh
+    IN /\ UniqueKeys(kind, repl) /\ UniqueKeys(kind, rem)            \* names are unique within a datacenter
+       /\ \A i \in los : i \notin {o.id : o \in repl \cup rem}      \* identifiers of local-only objects are fresh
        /\ \E inL \in Orders(repl \cup ll), inR \in Orders(rem \cup lr) :
             st = InitState(kind, repl \cup lo, inL, inR, last)
 
@@ -66,6 +67,10 @@ InvSorted ==
     /\ Rng(st.local) = Rng(st.inL) /\ Len(st.local) = Len(st.inL)
     /\ Rng(st.remote) = Rng(st.inR) /\ Len(st.remote) = Len(st.inR)
 InvRoundOK == st.pc = "done" => RoundOK(st)
+\* witness that the order of the round matters (expected to be VIOLATED when listed as an invariant):
+\* "applying the upserts before the deletions is always accepted"
+InvUpsertsFirstAlsoFine ==
+  st.pc = "done" => ApplyUpsertsFirst(st.kind, st.sec, Rng(st.dels), Rng(st.ups), Rng(st.inR)).ok
 InvRunOK == st.pc = "sort" => RoundOK(Run(st))      \* the recursive form used by ReplDiffTrace agrees
 PropTerminates == [][Measure(st') < Measure(st) /\ Measure(st') >= 0]_st
 
